@@ -289,3 +289,46 @@ def run(repo: Repo, rep: Report, tier: str) -> None:
                   f"table {a5[-50:]!r}; emitter after plan_layout: {after5}" if a5 == b5 else f"planner gets {a5[-50:]!r}, emitter gets {b5[-50:]!r}", f5.loc())
     from .shared import borrow as _borrow7
     _borrow7(repo, rep, "C09", "C09-R5", "C07-R6", "static properties of placed entities reach the blueprint: only the frozen bookkeeping keys are skipped, whatever their value")
+
+    # ---------------- R7 ---------------------------------------------------------------
+    rep.rule("C07-R7", "the materialiser's loops are exhaustive: a loop of the emission package whose body configures something (stores into an attribute/subscript, or calls for effect) is "
+             "never left by `return` or `break` except straight after reporting an error; an early exit drops the configuration of every later element "
+             "(a second property write of the same entity, the remaining wires)")
+    n7 = 0
+    for f7 in repo.all_funcs():
+        if ".emission." not in f7.module.name + ".":
+            continue
+        pm7 = parents_map(f7.node)
+        for lp in walk_local(f7.node):
+            if not isinstance(lp, (ast.For, ast.While)):
+                continue
+            effect = any((isinstance(x, (ast.Assign, ast.AugAssign)) and any(isinstance(t, (ast.Attribute, ast.Subscript)) for t in (x.targets if isinstance(x, ast.Assign) else [x.target])))
+                         or (isinstance(x, ast.Expr) and isinstance(x.value, ast.Call)) for b in lp.body for x in ast.walk(b))
+            if not effect:
+                continue
+            n7 += 1
+            exits = []
+            for b in lp.body:
+                for x in ast.walk(b):
+                    if isinstance(x, ast.Return):
+                        exits.append(x)
+                    elif isinstance(x, ast.Break):
+                        # a break belongs to its innermost loop
+                        q = pm7.get(x)
+                        while q is not None and not isinstance(q, (ast.For, ast.While)):
+                            q = pm7.get(q)
+                        if q is lp:
+                            exits.append(x)
+            def _after_error(x):
+                blk = pm7.get(x)
+                for fld in ("body", "orelse", "finalbody"):
+                    seq = getattr(blk, fld, None)
+                    if isinstance(seq, list) and x in seq:
+                        i = seq.index(x)
+                        prev = seq[i - 1] if i else None
+                        return prev is not None and isinstance(prev, ast.Expr) and isinstance(prev.value, ast.Call) and call_name(prev.value) in ("error", "_error")
+                return False
+            bad7 = [x for x in exits if not _after_error(x)]
+            rep.check(not bad7, "C07-R7", f"{f7.short}: loop over `{canon(f7).text(lp.iter)[:60] if isinstance(lp, ast.For) else 'while'}` visits every element",
+                      "no early exit" if not bad7 else f"`{type(bad7[0]).__name__.lower()}` at line {bad7[0].lineno} leaves the loop: later elements are never configured", f7.loc(bad7[0] if bad7 else lp))
+    rep.floor("C07-R7", "configuring loops in the emission package", n7, 5)
